@@ -819,13 +819,17 @@ class FamilyMixin:
         n = len(h.idx)
         bits = (op["m"] * (n + 2))[:n + op["dlen"]]
         got = self.call(h.real.__getitem__, self.make_mask(bits))
-        bad = h.masked or len(bits) != n
+        bad = len(bits) != n
+        if h.masked and not bad and got[0] == "exc":
+            self.inc("outcome.raised")      # documented refusal, not demanded by the property (see op_mask)
+            self.h.update(b"exc")
+            return
         self.expect(got, bad, "va[mask] (mask %d, items %d, masked %s)" % (len(bits), n, h.masked))
         if bad:
             return
         nh = self.Handle(got[1], "varr", h.tname, h.store, [h.idx[k] for k in range(n) if bits[k]], h.writable, True)
         nh.vtype = h.vtype
-        nh.ulen = n
+        nh.ulen = n if not h.masked else None
         self.add(nh)
 
     def stale_rows(self, rowstores):
@@ -973,8 +977,13 @@ class FamilyMixin:
                     del row
                 svals.append(rowv)
             got = self.call(h.real.__setitem__, self.make_mask(bits), src)
-            # documented refusal: masked references do not support mask assignment of items
-            bad = badlen or not h.writable or h.masked
+            bad = badlen or not h.writable
+            if h.masked and not bad and got[0] == "exc":
+                # documented refusal (masked references do not support mask assignment of items): nothing changes. The
+                # property does not demand the refusal: should the library accept the call, list semantics apply (below)
+                self.inc("outcome.raised")
+                self.h.update(b"exc")
+                return
             self.expect(got, bad, "va[mask] = varray of %d (mask %d, selected %d, items %d, masked %s, writable %s)" % (ln, len(bits), cnt, n, h.masked, h.writable))
             if not bad:
                 self.stale_rows([h.store.vals[h.idx[k]] for k in sel])
@@ -1180,7 +1189,11 @@ class FamilyMixin:
         n = len(h.idx)
         bits = (op["m"] * (n + 2))[:n + op["dlen"]]
         got = self.call(h.real.__getitem__, self.make_mask(bits))
-        bad = h.masked or len(bits) != n
+        bad = len(bits) != n
+        if h.masked and not bad and got[0] == "exc":
+            self.inc("outcome.raised")      # documented refusal, not demanded by the property (see op_mask)
+            self.h.update(b"exc")
+            return
         self.expect(got, bad, "s[mask] (mask %d, len %d, masked %s)" % (len(bits), n, h.masked))
         if bad:
             return
